@@ -28,6 +28,7 @@ def pinnedTables : Tables :=
     listNotCoerced := Pinned.listNotCoerced, symbolUnchecked := Pinned.symbolUnchecked,
     fieldPosAfterLookahead := Pinned.fieldPosAfterLookahead,
     opErrPosAfterLookahead := Pinned.opErrPosAfterLookahead,
+    fragCondPosAfterToken := Pinned.fragCondPosAfterToken, varDefPosAfterToken := Pinned.varDefPosAfterToken,
     leafErrNulls := Pinned.leafErrNulls, fastSliceCopies := Pinned.fastSliceCopies }
 
 def main (args : List String) : IO Unit := run pinnedTables args
